@@ -167,6 +167,11 @@ def run_symx(h, tier, b, work):
     outs = []
     procs = []
     t0 = time.time()
+    dump_dir = None
+    if tier == "thorough":
+        dump_dir = os.path.join(work, "queries_" + h["name"])
+        os.makedirs(dump_dir, exist_ok=True)
+        args += ["--dump-assert-queries", dump_dir]
     for i in range(nsh):
         o = os.path.join(work, "symx_%s_%d.json" % (h["name"], i))
         outs.append(o)
@@ -184,7 +189,41 @@ def run_symx(h, tier, b, work):
         if p.returncode not in (0, 1) or not os.path.exists(o):
             raise HarnessError("symx failed (rc=%s): %s" % (p.returncode, (se or so)[-2000:]))
         res.append(json.load(open(o)))
-    return res, time.time() - t0
+    return res, time.time() - t0, dump_dir
+
+
+def cross_check_queries(dump_dir, cap=60, timeout=60):
+    """Thorough tier: a sample of the assertion queries that symx's z3 5.1 discharged (unsat) is re-decided by the
+    system z3 4.8.12 and by cvc5.  'sat' from either is a disagreement (harness error); timeouts/unknown are counted."""
+    files = sorted(os.listdir(dump_dir))[:cap] if dump_dir and os.path.isdir(dump_dir) else []
+    stats = dict(checked=0, z3_unsat=0, cvc5_unsat=0, inconclusive=0, disagreements=[])
+
+    def one(fn):
+        p = os.path.join(dump_dir, fn)
+        out = {}
+        for name, cmd in (("z3", ["/usr/bin/z3", "-T:%d" % timeout, p]), ("cvc5", ["cvc5", "--tlimit=%d" % (timeout * 1000), p])):
+            try:
+                r = subprocess.run(cmd, stdout=subprocess.PIPE, stderr=subprocess.STDOUT, text=True, timeout=timeout + 10)
+                txt = r.stdout.strip().splitlines()
+                ans = next((l for l in txt if l in ("sat", "unsat", "unknown")), "unknown")
+                if any("(error" in l for l in txt):
+                    ans = "unknown"
+            except Exception:
+                ans = "unknown"
+            out[name] = ans
+        return fn, out
+
+    with ThreadPoolExecutor(max_workers=8) as ex:
+        for fn, out in ex.map(one, files):
+            stats["checked"] += 1
+            for name in ("z3", "cvc5"):
+                if out[name] == "unsat":
+                    stats[name + "_unsat"] += 1
+                elif out[name] == "sat":
+                    stats["disagreements"].append("%s: %s says sat" % (fn, name))
+                else:
+                    stats["inconclusive"] += 1
+    return stats
 
 
 SUM_KEYS = ["paths", "paths_ok", "paths_infeasible", "paths_error", "paths_inconclusive", "states", "forks", "steps",
@@ -311,7 +350,7 @@ def check_property(pid, tier, harnesses, seed=0):
             log("%s/%s: building from %s" % (pid, h["name"], REPO))
             b = build_harness(h, tier, work)
             log("%s/%s: build %.1fs; running symx" % (pid, h["name"], b.build_s))
-            res, wall = run_symx(h, tier, b, work)
+            res, wall, dump_dir = run_symx(h, tier, b, work)
             m = merge(res)
             log("%s/%s: paths=%d ok=%d err=%d inconclusive=%d queries=%d (sat %d/unsat %d/unknown %d, cache %d) solver=%.1fs wall=%.1fs" % (
                 pid, h["name"], m["paths"], m["paths_ok"], m["paths_error"], m["paths_inconclusive"], m["queries"], m["q_sat"], m["q_unsat"],
@@ -323,6 +362,11 @@ def check_property(pid, tier, harnesses, seed=0):
                         asserts_discharged_by_solver=m["asserts_proved_by_solver"], inconclusive_kinds=m["inconclusive_kinds"],
                         error_kinds=m["error_kinds"], bounds=dict(b.defs, **{"_text": h.get("bounds", "")}), outside=h.get("outside", ""),
                         not_compilable_tus=b.not_compilable, compat_rewrites=b.compat)
+            if dump_dir:
+                xs = cross_check_queries(dump_dir)
+                hcov["second_solver_cross_check"] = xs
+                if xs["disagreements"]:
+                    problems.append("%s: solver disagreement on discharged assertion queries: %s" % (h["name"], xs["disagreements"][:3]))
             # ---- engine errors are never folded into "passed"
             non_crash_errors = {k: v for k, v in m["error_kinds"].items() if not k.startswith("crash:")}
             if non_crash_errors:
